@@ -390,6 +390,13 @@ class CallMixin:
         return join_all(outs) if outs else BOTTOM
 
     # -- constructors --------------------------------------------------------------------------------------------
+    def keeps_record(self, C: ClassInfo):
+        rc = self.config.get("record_classes")
+        if rc is not None:
+            return C.qualname in rc
+        return C.module.name == "data" or C.qualname in (
+            "rules.RuleTest", "rules.RuleTestFailureItem", "schema.ValidatedData", "datapath.DataPath")
+
     def construct(self, C: ClassInfo, pos, kw, star, dstar, node, env, frame):
         if C.is_exception():
             return mk(f"exc:{C.name}")
@@ -450,7 +457,11 @@ class CallMixin:
                 continue  # constructor always raises
             res = s.self_out if s.self_out is not None else target
             if kind == "fresh" and res.fields is not None:
-                res = replace(res, fields=tuple((k, v) for k, v in res.fields if k != NEWMARK))
+                if self.keeps_record(C):
+                    res = replace(res, fields=tuple((k, v) for k, v in res.fields if k != NEWMARK))
+                else:
+                    # exact class, field contents summarised (read back through the field hints)
+                    res = replace(res, fields=())
             outs.append(join(res, obj) if kind == "existing" else res)
         return clip(join_all(outs)) if outs else BOTTOM
 
